@@ -7,6 +7,7 @@ import datetime
 from functools import partial
 import logging
 import os
+import pickle
 import re
 from warnings import warn
 
@@ -1664,7 +1665,23 @@ class FlowProposal(RejectionProposal):
         # Flow might have exited before any weights were saved.
         if weights_file is not None:
             if os.path.exists(weights_file):
-                self.flow.reload_weights(weights_file)
+                try:
+                    self.flow.reload_weights(weights_file)
+                except (
+                    EOFError,
+                    OSError,
+                    RuntimeError,
+                    pickle.PickleError,
+                ) as e:
+                    # The file is incomplete if the sampler was killed whilst
+                    # the weights were being saved, fall back to the previous
+                    # weights file if there is one.
+                    logger.warning(
+                        f"Could not load weights from {weights_file} ({e!r})"
+                    )
+                    old_weights_file = weights_file + ".old"
+                    if os.path.exists(old_weights_file):
+                        self.flow.reload_weights(old_weights_file)
         else:
             logger.warning("Could not reload weights for flow")
 
